@@ -75,7 +75,10 @@ def is_facebook_post_url(url):
 
 
 def is_facebook_link(url):
-    splitted = safe_urlsplit(url)
+    try:
+        splitted = safe_urlsplit(url)
+    except ValueError:
+        return False
 
     if not splitted.hostname or ".facebook." not in splitted.hostname:
         return False
@@ -104,7 +107,11 @@ def convert_facebook_url_to_mobile(url):
 
     has_protocol = safe_url == url
 
-    scheme, netloc, path, query, fragment = urlsplit(safe_url)
+    # NOTE: a url that cannot be parsed is not a facebook url either
+    try:
+        scheme, netloc, path, query, fragment = urlsplit(safe_url)
+    except ValueError:
+        netloc = ""
 
     if "facebook" not in netloc:
         raise TypeError(
@@ -320,7 +327,10 @@ def parse_facebook_url(url, allow_relative_urls=False):
         if not is_facebook_url(url):
             return None
 
-    splitted = safe_urlsplit(url)
+    try:
+        splitted = safe_urlsplit(url)
+    except ValueError:
+        return None
 
     if not splitted.path or splitted.path == "/":
         return None
